@@ -590,15 +590,19 @@ func (p *Parser) parseCommodityDirective(startPos Position) ast.Directive {
 }
 
 func (p *Parser) parseIncludeDirective(startPos Position) ast.Directive {
-	var path strings.Builder
 	pathStart := p.current.Pos
 
 	for p.current.Type != TokenNewline && p.current.Type != TokenEOF && p.current.Type != TokenComment {
-		path.WriteString(p.current.Value)
 		p.advance()
 	}
 
-	pathStr := strings.TrimSpace(path.String())
+	// the path is the text as written, blanks and quotes inside it included:
+	// token values drop them ("2024 budget.journal" came out as
+	// "2024budget.journal")
+	pathStr := ""
+	if pathStart.Offset <= p.lastEnd.Offset && p.lastEnd.Offset <= len(p.lexer.input) {
+		pathStr = strings.TrimSpace(p.lexer.input[pathStart.Offset:p.lastEnd.Offset])
+	}
 	if pathStr == "" {
 		p.error("expected file path")
 		p.skipToNextLine()
